@@ -13,7 +13,7 @@ func init() {
 		Level: "Structural necessary conditions of crash-atomic file replacement, decided on every path of the named functions: the replace protocol order (intent log written+synced ≺ rename new ≺ delete old ≺ remove log) in both ReplaceFiles siblings; " +
 			"the log writer appends the magic, writes, syncs before handing out the name; the reader accepts a log only behind the magic test; recovery renames all new files before it removes any old one, takes the undo arm only when not all new files but all old files exist, and removes the log only after processing it; " +
 			"merge deletes out-of-order files only after the replace succeeded; compaction plans are paired (acquire/CompactDone, ref/unref) and group only adjacent same-level files; who-may-delete data files is a frozen table. " +
-			"NOT decided: that rewriting loses, duplicates or reorders no row (value-level), planner optimality.",
+			"the two existence predicates of the start-up recovery pass recognise both the temporary and the final name of a logged file; NOT decided: that rewriting loses, duplicates or reorders no row (value-level), planner optimality.",
 		Assumptions: commonAssumptions,
 		Technique:   "static analysis: must-precede / never-after / post-dominance cuts on go/cfg, lockset dataflow, who-may-call tables",
 		Rules:       "C03.R1 R1b R2 R3 R4 R5 R6 R7",
